@@ -32,6 +32,10 @@ type EntrySpec struct {
 	// between <organism> and <sequence>; Precursor: the sequence element carries precursor="true" fragment="single"
 	Extras    []int `json:"extras,omitempty"`
 	Precursor bool  `json:"precursor,omitempty"`
+	// Spelling: other lexical forms the XML schema allows for the same values. Bit 0: booleans as 1 / 0 (precursor,
+	// organismsDiffer); bit 1: the sequence element's attributes in single quotes; bit 2: its integers with a leading
+	// zero or plus sign; bit 3: white space around '=' and before '>'; bit 4: precursor="false" written out
+	Spelling int `json:"spelling,omitempty"`
 	// valid calendar dates (YYYY-MM-DD) for the entry's created / modified attributes and the sequence's modified
 	// attribute; empty = 2009-05-05
 	Created, Modified, SeqModified string `json:",omitempty"`
@@ -131,14 +135,35 @@ func document(c Case) (doc []byte, entryEnds []int, rootEnd int) {
 			children = append(children, extras[((k%len(extras))+len(extras))%len(extras)])
 		}
 		sort.SliceStable(children, func(i, j int) bool { return children[i].rank < children[j].rank })
+		yes, no := "true", "false"
+		if e.Spelling&1 != 0 {
+			yes, no = "1", "0"
+		}
 		for _, ch := range children {
-			b.WriteString(in1 + ch.xml + nl)
+			x := ch.xml
+			if e.Spelling&1 != 0 {
+				x = strings.ReplaceAll(strings.ReplaceAll(x, "<organismsDiffer>true<", "<organismsDiffer>1<"), "<organismsDiffer>false<", "<organismsDiffer>0<")
+			}
+			b.WriteString(in1 + x + nl)
 		}
 		more := ""
 		if e.Precursor {
-			more = ` precursor="true" fragment="single"`
+			more = ` precursor="` + yes + `" fragment="single"`
+		} else if e.Spelling&16 != 0 {
+			more = ` precursor="` + no + `"`
 		}
-		fmt.Fprintf(&b, `%s<sequence length="%d" mass="%d" checksum="C4F2A0B1D3E5F607" modified="%s" version="1"%s>%s</sequence>%s`, in1, len(e.Sequence), 110*len(e.Sequence), dateOr(e.SeqModified), more, e.Sequence, nl)
+		intFmt := "%d"
+		if e.Spelling&4 != 0 {
+			intFmt = []string{"0%d", "+%d"}[len(e.Sequence)%2]
+		}
+		el := fmt.Sprintf(`<sequence length="`+intFmt+`" mass="`+intFmt+`" checksum="C4F2A0B1D3E5F607" modified="%s" version="1"%s>`, len(e.Sequence), 110*len(e.Sequence), dateOr(e.SeqModified), more)
+		if e.Spelling&2 != 0 {
+			el = strings.ReplaceAll(el, `"`, "'")
+		}
+		if e.Spelling&8 != 0 {
+			el = strings.ReplaceAll(strings.ReplaceAll(el, "=", " = "), ">", "\n >")
+		}
+		b.WriteString(in1 + el + e.Sequence + "</sequence>" + nl)
 		b.WriteString("</entry>")
 		entryEnds = append(entryEnds, b.Len())
 		b.WriteString(nl)
@@ -637,6 +662,9 @@ func drawEntry(t *rapid.T) EntrySpec {
 	if rapid.IntRange(0, 2).Draw(t, "annotated") == 0 { // an entry annotated the way the data bank's are
 		e.Extras = rapid.SliceOfN(rapid.IntRange(0, len(extras)-1), 1, 12).Draw(t, "extras")
 		e.Precursor = rapid.Bool().Draw(t, "precursor")
+	}
+	if rapid.IntRange(0, 3).Draw(t, "other_spellings") == 0 { // the same values in the other lexical forms the schema allows
+		e.Spelling = rapid.IntRange(1, 31).Draw(t, "spelling")
 	}
 	if rapid.IntRange(0, 2).Draw(t, "dates") == 0 {
 		e.Created, e.Modified, e.SeqModified = drawDate(t, "created"), drawDate(t, "modified"), drawDate(t, "sequence_modified")
